@@ -271,7 +271,11 @@ fn plausible(rng: &mut StdRng, me: u16, name: &str, m: &Message<'static>, att: &
     }
 }
 
-fn adversarial(rng: &mut StdRng, me: u16) -> Reply {
+fn adversarial(rng: &mut StdRng, me: u16, sent: &Message<'static>) -> Reply {
+    // an echo of the message just sent (half-duplex adapters do that), or a near echo
+    if rng.gen_range(0..10) == 0 {
+        return Reply::Msg(sent.clone());
+    }
     let near = [me, me.wrapping_add(1), me.wrapping_sub(1), me ^ 0x100, me ^ 0x8000, me ^ 0x80, 0, 0xFFFF];
     let a = Address(near[rng.gen_range(0..near.len())]);
     match rng.gen_range(0..12) {
@@ -322,7 +326,7 @@ pub fn record_adversarial(a: &Args, out: &mut TraceOut, salt: u64, runs: usize) 
                 if n > 400 {
                     return Some(Reply::BusError); // runaway guard: ends the call
                 }
-                if n == bad_at || (n > bad_at && r2.gen_bool(0.3)) { Some(adversarial(&mut r2, me)) } else { Some(plausible(&mut r2, me, &nm, m, &mut att)) }
+                if n == bad_at || (n > bad_at && r2.gen_bool(0.3)) { Some(adversarial(&mut r2, me, m)) } else { Some(plausible(&mut r2, me, &nm, m, &mut att)) }
             }),
             log: vec![],
             exhausted: false,
@@ -502,7 +506,8 @@ pub fn record_directed_ctl(a: &Args, out: &mut TraceOut) -> Value {
                 let bus = Rc::new(RefCell::new(ScriptedBus {
                     next: Box::new(move |i, m| {
                         if i == fail_at {
-                            return Some(Reply::BusError);
+                            // a bus error, or (every third run) an echo of the message just sent
+                            return Some(if rep % 3 == 2 { Reply::Msg(m.clone()) } else { Reply::BusError });
                         }
                         let _ = k2;
                         Some(match m {
